@@ -488,6 +488,11 @@ MANIFEST = {
                   'same content bytes on the loaded document, so the extracted text is the text shown (C16_extract_after_save_load, '
                   'C16_extract_blocks_after_save_load) and, for arbitrary pages, the chunks and text of the document in memory '
                   '(C16_extract_same_after_save_load); stream format: for documents that do not mention the identifier the cross-reference stream takes. '
+                  'Content::decode is C14\'s model (C14_rt): a page whose content is Content::encode of the text-showing operations decodes to them, so the '
+                  'theorem starts from the operations written (C16_extract_written_after_save_load). Document::compress before the save (C09\'s model, '
+                  'lopdf\'s filter code reading the Flate stream back): same fonts and content bytes, the document stays inside the save/load domain '
+                  '(C16_compress_keeps_domain), hence the same text (C16_extract_after_compress_save_load, C16_extract_same_after_compress_save_load); '
+                  'assumed of flate2, as in C09: the decoder implements RFC 1950/1951 (absent with the Gallina inflate) and the compressor writes a valid zlib stream. '
                   'Tied to the implementation by differential runs through the public API, incl. save_to + load_mem.',
     'level_note': 'Trusted: Coq kernel; translator (5 tables x 256 cells with 4495 glyph constants resolved, name->table switch, marks, '
                   'payload offsets, TJ threshold); model of Rust std UTF-8/UTF-16 conversions (assumed, tied by correspondence); '
